@@ -1,5 +1,8 @@
 """Contracts for optuna/distributions.py (C10, C11, C14)."""
 from pyvc.contracts import Registry, case, loop
+import z3
+from pyvc.kinds import *  # noqa
+from pyvc.state import SV
 
 R = Registry()
 F = "optuna/distributions.py"
@@ -35,6 +38,20 @@ R.spec(F, "IntDistribution.__init__", props=["C11", "C10"],
 
 R.spec(F, "IntDistribution._contains", props=["C10", "C11"],
        types={"param_value_in_internal_repr": "float"},
-       requires=["self.step > 0"],
-       cases=[case("normal", ensures=[])], verify=True)
+       requires=["self.step > 0", "is_integral(param_value_in_internal_repr)"],
+       # for integral internal values: inside [low, high] and on the step grid, exactly
+       cases=[case("normal", returns="self.low <= param_value_in_internal_repr and param_value_in_internal_repr <= self.high and "
+                                     "(int(param_value_in_internal_repr) - self.low) % self.step == 0")], verify=True)
 
+
+@R.specfunc()
+def is_integral(eng, st, x):
+    t = eng.coerce(st, x, KFloat).term
+    r = f_r(t)
+    return SV(KBool, z3.And(f_is_fin(t), z3.ToReal(z3.ToInt(r)) == r))
+
+
+R.schema("CategoricalDistribution", {"choices": "list[Any]"})
+R.spec(F, "CategoricalDistribution._contains", props=["C10", "C11"], types={"param_value_in_internal_repr": "float"},
+       requires=["is_integral(param_value_in_internal_repr)"],
+       cases=[case("normal", returns="0.0 <= param_value_in_internal_repr and int(param_value_in_internal_repr) < len(self.choices)")])
